@@ -96,7 +96,9 @@ def r06_2(ctx):
     hf = m.func('pool:TimeoutHandler.on_hard_timeout')
     cbh = q.calls(hf, hf.positional_params()[1] + '.handle_timeout')
     ok = bool(cbh) and all(any(k.arg == 'soft' and isinstance(k.value, ast.Constant) and k.value.value is False
-                               for k in c.keywords) for (n, c) in cbh)
+                               for k in c.keywords) or
+                           (c.args and isinstance(c.args[0], ast.Constant) and c.args[0].value is False)
+                           for (n, c) in cbh)
     ctx.ob('R06.2', 'on_hard_timeout:callback-told-hard', ok, hf, cbh[0][1] if cbh else None, 'job.handle_timeout(soft=False)')
     ht = m.func('pool:ApplyResult.handle_timeout')
     soft = ht.positional_params()[1]
